@@ -191,6 +191,31 @@ PeriodInv ==
          /\ A(i).per[s1] # 0 /\ A(i).per[s1] = A(i).per[s2]) => hist[s1].legs[i] = hist[s2].legs[i]
 
 (***************************************************************************)
+(* Refinement: split optimisation (C14).  A behaviour of the split model   *)
+(* (cfg.split # {}) is replayed, leg by leg, under the same configuration  *)
+(* WITHOUT the split; when the only coupling between intervals is through  *)
+(* storages whose start level equals their end level (cfg.refines), every  *)
+(* split behaviour must be a behaviour of the unsplit model with the same  *)
+(* value ("split never exceeds unsplit").                                  *)
+(***************************************************************************)
+RECURSIVE ReplayFrom(_, _, _, _)
+\* replays hist[s..] under configuration c from sub-states st; returns [bad, val]
+ReplayFrom(c, s, st, acc) ==
+  IF s > Len(hist) THEN [bad |-> "", val |-> acc]
+  ELSE LET rs == [i \in 1..Len(c.assets) |-> AssetStep(c, 1, 0, c.assets[i], s, hist[s].legs[i], st[i], frac[i])]
+           b  == { rs[i].bad : i \in 1..Len(c.assets) } \ {""}
+       IN IF b # {} THEN [bad |-> CHOOSE x \in b : TRUE, val |-> acc]
+          ELSE IF Imbalanced(c, rs, 0) # {} THEN [bad |-> "balance", val |-> acc]
+          ELSE ReplayFrom(c, s + 1, [i \in 1..Len(c.assets) |-> rs[i].st],
+                          acc - SeqSum([i \in 1..Len(c.assets) |-> rs[i].cost]))
+
+Unsplit == [cfg EXCEPT !.split = {}]
+SplitRefinesUnsplit ==
+  (fault = "" /\ cfg.split # {} /\ cfg.refines /\ Complete) =>
+     LET r == ReplayFrom(Unsplit, 1, [i \in 1..NA |-> InitSub(A(i))], 0)
+     IN r.bad = "" /\ r.val = val
+
+(***************************************************************************)
 (* Emission of behaviours for spec -> code conformance (CONSTRAINT Emit):  *)
 (* complete strict behaviours and faulted prefixes are printed as JSON and *)
 (* faulted states are not expanded.                                        *)
